@@ -121,8 +121,8 @@ func (k Keeper) ModifyParam(ctx sdk.Ctx, aclKey string, paramValue []byte, owner
 	subspaceName, paramKey := types.SplitACLKey(aclKey)
 	space, ok := k.spaces[subspaceName]
 	if !ok {
-		k.Logger(ctx).Error(types.ErrSubspaceNotFound(types.ModuleName, subspaceName).Error())
-		os.Exit(1)
+		// the access-control list can name keys of subspaces that do not exist: refuse the message, the node keeps running
+		return types.ErrSubspaceNotFound(types.ModuleName, subspaceName).Result()
 	}
 	space.Update(ctx, []byte(paramKey), paramValue)
 	k.spaces[subspaceName] = space
